@@ -36,6 +36,22 @@ use serde_json::{json, Value};
 use crate::common::{self, Env, EnvOpts, Outcome};
 
 const CA: &str = "alpha";
+const PARENT: &str = "parent";
+
+/// What the CA under test holds (the universe of the specification).
+fn std_resources() -> ResourceSet {
+    ResourceSet::from_strs(
+        "AS64001-AS64002", "10.0.0.0/16", "2001:db8::/32"
+    ).unwrap()
+}
+
+/// What it holds while an entry for a resource "lost since" is set up.
+fn grown_resources() -> ResourceSet {
+    ResourceSet::from_strs(
+        "AS64001-AS64003", "10.0.0.0/16, 11.0.0.0/24",
+        "2001:db8::/32, 2001:db9::/48"
+    ).unwrap()
+}
 const ASN_BASE: u32 = 64000;
 
 fn prefix_of(atom: &str) -> &'static str {
@@ -94,29 +110,36 @@ fn tool_error(msg: String) -> ! {
     std::process::exit(2);
 }
 
-fn make_csr() -> Vec<u8> {
-    use openssl::ec::{EcGroup, EcKey};
+/// Makes a BGPsec router key CSR. If `foreign_signature`, the request is
+/// signed with another key than the one it carries (not self-signed).
+fn make_csr_with(
+    key: &openssl::pkey::PKey<openssl::pkey::Private>,
+    signer: &openssl::pkey::PKey<openssl::pkey::Private>,
+) -> Vec<u8> {
     use openssl::hash::MessageDigest;
-    use openssl::nid::Nid;
-    use openssl::pkey::PKey;
     use openssl::x509::{X509NameBuilder, X509ReqBuilder};
-    let group = EcGroup::from_curve_name(Nid::X9_62_PRIME256V1).unwrap();
-    let key = PKey::from_ec_key(EcKey::generate(&group).unwrap()).unwrap();
     let mut name = X509NameBuilder::new().unwrap();
     name.append_entry_by_text("CN", "ROUTER-0000FA01").unwrap();
     let name = name.build();
     let mut req = X509ReqBuilder::new().unwrap();
     req.set_version(0).unwrap();
     req.set_subject_name(&name).unwrap();
-    req.set_pubkey(&key).unwrap();
+    req.set_pubkey(key).unwrap();
     let mut exts = openssl::stack::Stack::new().unwrap();
     exts.push(
         openssl::x509::extension::ExtendedKeyUsage::new()
             .other("1.3.6.1.5.5.7.3.30").build().unwrap()
     ).unwrap();
     req.add_extensions(&exts).unwrap();
-    req.sign(&key, MessageDigest::sha256()).unwrap();
+    req.sign(signer, MessageDigest::sha256()).unwrap();
     req.build().to_der().unwrap()
+}
+
+fn make_ec_key() -> openssl::pkey::PKey<openssl::pkey::Private> {
+    use openssl::ec::{EcGroup, EcKey};
+    use openssl::nid::Nid;
+    let group = EcGroup::from_curve_name(Nid::X9_62_PRIME256V1).unwrap();
+    openssl::pkey::PKey::from_ec_key(EcKey::generate(&group).unwrap()).unwrap()
 }
 
 impl World {
@@ -148,57 +171,65 @@ impl World {
             None, &actor, &env.slow,
         ).map_err(|e| e.to_string()));
 
-        // the CA under test, below the TA (recipe of krill's import_ca)
-        ok("init_ca", cam.init_ca(ca.clone(), &env.krill)
-            .map_err(|e| e.to_string()));
-        let pub_req = idexchange::PublisherRequest::new(
-            cam.get_ca(&ca).unwrap().id_cert().base64.clone(),
-            ca.convert(), None,
-        );
-        ok("create_publisher", env.krill.repo_manager().create_publisher(
-            pub_req, &actor
-        ).map_err(|e| e.to_string()));
-        let contact = RepositoryContact::try_from_response(
-            env.krill.repo_manager().repository_response(
-                &ca.convert(), &env.krill
-            ).unwrap_or_else(|e| tool_error(format!("repo response: {e}")))
-        ).unwrap_or_else(|e| tool_error(format!("repo contact: {e}")));
-        ok("update_repo", cam.update_repo(
-            ca.clone(), contact, false, &actor, &env.slow
-        ).map_err(|e| e.to_string()));
+        // an intermediate CA below the TA, and below it the CA under
+        // test (recipe of krill's import_ca); the intermediate CA lets the
+        // harness grow and shrink what the CA under test holds
         let ta = CaHandle::from_str(krill::constants::TA_NAME).unwrap();
-        let id_cert = cam.get_ca(&ca).unwrap().child_request().validate()
-            .unwrap_or_else(|e| tool_error(format!("child request: {e}")));
-        let response = cam.ca_add_child(
-            &ta,
-            AddChildRequest {
-                handle: ca.convert(),
-                resources: ResourceSet::from_strs(
-                    "AS64001-AS64002", "10.0.0.0/16", "2001:db8::/32"
-                ).unwrap(),
-                id_cert,
-            },
-            &actor, &env.krill,
-        ).unwrap_or_else(|e| tool_error(format!("add child to ta: {e}")));
-        ok("parent_add", cam.ca_parent_add_or_update(
-            ca.clone(), ParentCaReq { handle: ta.convert(), response },
-            &actor, &env.krill,
-        ).map_err(|e| e.to_string()));
-        for _ in 0..2 {
-            ok("sync", cam.ca_sync_parent(
-                &ca, 0, &ta.convert(), &actor, &env.slow
-            ).map(|_| ()).map_err(|e| e.to_string()));
-        }
-        ok("ta sync", cam.sync_ta_proxy_signer_if_possible(&env.krill)
-            .map_err(|e| e.to_string()));
-        ok("sync", cam.ca_sync_parent(
-            &ca, 0, &ta.convert(), &actor, &env.slow
-        ).map(|_| ()).map_err(|e| e.to_string()));
-        let held = cam.get_ca(&ca).unwrap().all_resources();
-        if held.to_string() != ResourceSet::from_strs(
-            "AS64001-AS64002", "10.0.0.0/16", "2001:db8::/32"
-        ).unwrap().to_string() {
-            tool_error(format!("CA holds '{held}' after set-up"));
+        let parent = CaHandle::from_str(PARENT).unwrap();
+        for (handle, above, res) in [
+            (&parent, &ta, grown_resources()), (&ca, &parent, std_resources())
+        ] {
+            ok("init_ca", cam.init_ca(handle.clone(), &env.krill)
+                .map_err(|e| e.to_string()));
+            let pub_req = idexchange::PublisherRequest::new(
+                cam.get_ca(handle).unwrap().id_cert().base64.clone(),
+                handle.convert(), None,
+            );
+            ok("create_publisher", env.krill.repo_manager().create_publisher(
+                pub_req, &actor
+            ).map_err(|e| e.to_string()));
+            let contact = RepositoryContact::try_from_response(
+                env.krill.repo_manager().repository_response(
+                    &handle.convert(), &env.krill
+                ).unwrap_or_else(|e| {
+                    tool_error(format!("repo response: {e}"))
+                })
+            ).unwrap_or_else(|e| tool_error(format!("repo contact: {e}")));
+            ok("update_repo", cam.update_repo(
+                handle.clone(), contact, false, &actor, &env.slow
+            ).map_err(|e| e.to_string()));
+            let id_cert = cam.get_ca(handle).unwrap().child_request()
+                .validate().unwrap_or_else(|e| {
+                    tool_error(format!("child request: {e}"))
+                });
+            let response = cam.ca_add_child(
+                above,
+                AddChildRequest {
+                    handle: handle.convert(), resources: res.clone(), id_cert,
+                },
+                &actor, &env.krill,
+            ).unwrap_or_else(|e| tool_error(format!("add child: {e}")));
+            ok("parent_add", cam.ca_parent_add_or_update(
+                handle.clone(),
+                ParentCaReq { handle: above.convert(), response },
+                &actor, &env.krill,
+            ).map_err(|e| e.to_string()));
+            for _ in 0..2 {
+                ok("sync", cam.ca_sync_parent(
+                    handle, 0, &above.convert(), &actor, &env.slow
+                ).map(|_| ()).map_err(|e| e.to_string()));
+            }
+            if above.as_str() == krill::constants::TA_NAME {
+                ok("ta sync", cam.sync_ta_proxy_signer_if_possible(&env.krill)
+                    .map_err(|e| e.to_string()));
+                ok("sync", cam.ca_sync_parent(
+                    handle, 0, &above.convert(), &actor, &env.slow
+                ).map(|_| ()).map_err(|e| e.to_string()));
+            }
+            let held = cam.get_ca(handle).unwrap().all_resources();
+            if held != res {
+                tool_error(format!("{handle} holds '{held}' after set-up"));
+            }
         }
 
         // identities for the children to add
@@ -218,21 +249,35 @@ impl World {
         let mut csrs = BTreeMap::new();
         let mut key_names = BTreeMap::new();
         for name in ["k1", "k2"] {
-            let der = make_csr();
+            let key = make_ec_key();
+            let der = make_csr_with(&key, &key);
             let good = BgpsecCsr::decode(der.as_slice()).unwrap_or_else(|e| {
                 tool_error(format!("cannot decode generated CSR: {e}"))
             });
             if good.verify_signature().is_err() {
                 tool_error("generated CSR does not verify".into());
             }
-            let mut bad_der = der.clone();
-            let n = bad_der.len();
-            bad_der[n - 3] ^= 0x55;
+            // not validly self-signed: k1 - one byte of the signature
+            // flipped; k2 - signed with a different key
+            let bad_der = if name == "k1" {
+                let mut bad_der = der.clone();
+                let n = bad_der.len();
+                bad_der[n - 3] ^= 0x55;
+                bad_der
+            }
+            else {
+                make_csr_with(&key, &make_ec_key())
+            };
             let bad = BgpsecCsr::decode(bad_der.as_slice()).unwrap_or_else(
                 |e| tool_error(format!("cannot decode broken CSR: {e}"))
             );
             if bad.verify_signature().is_ok() {
                 tool_error("broken CSR verifies".into());
+            }
+            if bad.public_key().key_identifier()
+                != good.public_key().key_identifier()
+            {
+                tool_error("broken CSR has another key".into());
             }
             key_names.insert(
                 good.public_key().key_identifier().to_string(),
@@ -395,12 +440,189 @@ impl World {
         res
     }
 
+    /// What the stored object set says: the payload of every published
+    /// ROA, ASPA and router certificate, decoded from the objects.
+    fn published(&self, objects: &str) -> Value {
+        use base64::Engine;
+        fn walk(v: &Value, found: &mut Vec<(String, String)>) {
+            match v {
+                Value::Object(map) => {
+                    for (k, v) in map {
+                        if k == "published_objects" {
+                            if let Some(objs) = v.as_object() {
+                                for (name, o) in objs {
+                                    found.push((
+                                        name.clone(),
+                                        o["base64"].as_str().unwrap_or("")
+                                            .to_string()
+                                    ));
+                                }
+                            }
+                        }
+                        else {
+                            walk(v, found)
+                        }
+                    }
+                }
+                Value::Array(list) => list.iter().for_each(|v| walk(v, found)),
+                _ => { }
+            }
+        }
+        let mut found = Vec::new();
+        for line in objects.lines() {
+            if let Some((key, json)) = line.split_once('=') {
+                if key.starts_with(CA) {
+                    if let Ok(v) = serde_json::from_str::<Value>(json) {
+                        walk(&v, &mut found);
+                    }
+                }
+            }
+        }
+        let mut roas = BTreeSet::new();
+        let mut aspas = BTreeSet::new();
+        let mut rtr = BTreeSet::new();
+        let mut bad = Vec::new();
+        for (name, b64) in found {
+            let Ok(bytes) = base64::engine::general_purpose::STANDARD
+                .decode(b64.as_bytes())
+            else {
+                bad.push(name);
+                continue
+            };
+            if name.ends_with(".roa") {
+                match rpki::repository::roa::Roa::decode(
+                    bytes.as_slice(), true
+                ) {
+                    Ok(roa) => {
+                        let asn = asn_back(roa.content().as_id().into_u32());
+                        for a in roa.content().iter() {
+                            let pfx = format!(
+                                "{}/{}", a.address(), a.address_length()
+                            );
+                            let p = PFX_ATOMS.iter().find(|x| {
+                                prefix_of(x) == pfx
+                            }).map(|x| x.to_string()).unwrap_or(pfx);
+                            roas.insert((p, a.max_length() as i64, asn));
+                        }
+                    }
+                    Err(_) => bad.push(name),
+                }
+            }
+            else if name.ends_with(".asa") {
+                match rpki::repository::aspa::Aspa::decode(
+                    bytes.as_slice(), true
+                ) {
+                    Ok(aspa) => {
+                        let provs: BTreeSet<i64> = aspa.content()
+                            .provider_as_set().iter().map(|p| {
+                                asn_back(p.into_u32())
+                            }).collect();
+                        aspas.insert((
+                            asn_back(aspa.content().customer_as().into_u32()),
+                            provs
+                        ));
+                    }
+                    Err(_) => bad.push(name),
+                }
+            }
+            else if name.starts_with("ROUTER-") {
+                match BgpSecAsnKey::from_str(
+                    name.trim_end_matches(".cer")
+                ) {
+                    Ok(key) => {
+                        let id = key.key.to_string();
+                        rtr.insert((
+                            asn_back(key.asn.into_u32()),
+                            self.key_names.get(&id).cloned().unwrap_or(id),
+                        ));
+                    }
+                    Err(_) => bad.push(name),
+                }
+            }
+        }
+        json!({
+            "roas": roas.iter().map(|(p, ml, asn)| json!({
+                "p": p, "ml": ml, "asn": asn
+            })).collect::<Vec<_>>(),
+            "aspas": aspas.iter().map(|(c, p)| json!({
+                "cust": c, "provs": p
+            })).collect::<Vec<_>>(),
+            "rtr": rtr.iter().map(|(a, k)| json!({
+                "asn": a, "key": k
+            })).collect::<Vec<_>>(),
+            "undecodable": bad,
+        })
+    }
+
     //--- bringing the CA into a state
 
-    fn ensure(&self, kind: &str, state: &Value) {
+    /// Grows or shrinks what the CA under test holds (through its parent).
+    fn set_held(&self, grown: bool) {
         let cam = self.env.krill.ca_manager();
+        let parent = CaHandle::from_str(PARENT).unwrap();
+        let res = if grown { grown_resources() } else { std_resources() };
+        cam.ca_child_update(
+            &parent, self.ca.convert(),
+            UpdateChildRequest::resources(res.clone()),
+            &self.actor, &self.env.krill
+        ).unwrap_or_else(|e| tool_error(format!("resize: {e}")));
+        for _ in 0..4 {
+            if cam.get_ca(&self.ca).unwrap().all_resources() == res {
+                return
+            }
+            cam.ca_sync_parent(
+                &self.ca, 0, &parent.convert(), &self.actor, &self.env.slow
+            ).unwrap_or_else(|e| tool_error(format!("resize sync: {e}")));
+        }
+        if cam.get_ca(&self.ca).unwrap().all_resources() != res {
+            tool_error(format!(
+                "CA holds '{}' after resize",
+                cam.get_ca(&self.ca).unwrap().all_resources()
+            ));
+        }
+    }
+
+    /// Is this state entry for a resource the CA does not hold (any more)?
+    fn orphan(kind: &str, entry: &Value) -> bool {
+        match kind {
+            "roa" => matches!(entry["pl"]["p"].as_str(), Some("u4" | "u6")),
+            "aspa" | "aspap" => entry["cust"] == 3,
+            "rtr" => entry["asn"] == 3,
+            _ => matches!(
+                entry["res"].as_str(),
+                Some("unh4" | "part" | "unhas" | "partas")
+            ),
+        }
+    }
+
+    fn ensure(&self, kind: &str, state: &Value) {
         let cur = self.project();
         let target = state.as_array().unwrap();
+        // entries for resources lost since can only be set up while the
+        // resources are held
+        let field = state_field(kind);
+        let grow = target.iter().any(|t| {
+            Self::orphan(kind, t)
+                && !cur[field].as_array().unwrap().iter().any(|c| {
+                    match kind {
+                        "aspa" | "aspap" => {
+                            c["cust"] == t["cust"] && c["provs"] == t["provs"]
+                        }
+                        _ => c == t
+                    }
+                })
+        });
+        if grow {
+            self.set_held(true);
+        }
+        self.ensure_held(kind, target, &cur);
+        if grow {
+            self.set_held(false);
+        }
+    }
+
+    fn ensure_held(&self, kind: &str, target: &[Value], cur: &Value) {
+        let cam = self.env.krill.ca_manager();
         let fail = |what: &str, e: String| -> ! {
             tool_error(format!("cannot reach state ({what}): {e}"))
         };
@@ -645,6 +867,9 @@ pub fn run(input: &Path, out: &Path, work: &Path, verbose: bool) {
         let hist_after = world.history_len();
         if verbose {
             eprintln!("{} {} -> {res} {err}", case["id"], case["req"]);
+            if std::env::var_os("VERIF_DUMP_OBJECTS").is_some() {
+                eprintln!("{objs_after}");
+            }
         }
         trace.push(&json!({
             "id": case["id"], "kind": kind, "state": case["state"],
@@ -654,6 +879,7 @@ pub fn run(input: &Path, out: &Path, work: &Path, verbose: bool) {
                 "before": before, "after": after,
                 "hist": hist_after as i64 - hist_before as i64,
                 "objs_same": objs_before == objs_after,
+                "pub": world.published(&objs_after),
                 "field": state_field(kind),
             },
         }));
